@@ -6,6 +6,7 @@ package contracts
 import (
 	"errors"
 	"fmt"
+	"strconv"
 	"strings"
 
 	"github.com/anoideaopen/foundation/core"
@@ -129,6 +130,12 @@ func (t *VT) run(script string) (string, error) {
 		case "failx":
 			// an error whose text is not valid UTF-8 (e.g. raw address bytes printed into a message)
 			return "", errors.New("scripted failure \xff\xfe\x80 with raw bytes")
+		case "faill":
+			// a long error text of multi-byte characters (an echoed argument, say): faill:<n> = n characters
+			// of two bytes each after <n mod 3> one-byte characters, so that any byte offset falls inside a
+			// character for some n
+			n, _ := strconv.Atoi(arg(1))
+			return "", errors.New("scripted failure " + strings.Repeat("x", n%3) + strings.Repeat("é", n))
 		case "panic":
 			panic("scripted panic")
 		case "add", "sub":
